@@ -2,11 +2,13 @@
 # developer aid: apply a patch to the scratch worktree /tmp/wt/demo, run every property's rules on it, list findings
 # usage: trypatch.sh <patch.diff> [prop-regex]
 set -u
-WT=/tmp/wt/demo
+WT=${WT:-/tmp/wt/demo}
+BIN=${UPFCHECK:-/verif/bin/upfcheck}
+EV=/tmp/wt/ev_try_$(basename $WT)
 export GOFLAGS=-mod=mod GOPROXY=off GOSUMDB=off GOTOOLCHAIN=local
 git -C $WT checkout -q -- . && git -C $WT clean -fdq
 git -C $WT apply --whitespace=nowarn "$1" || { echo "APPLY FAILED"; exit 2; }
 (cd $WT && go build ./... ) || { echo "BUILD FAILED"; git -C $WT checkout -q -- .; exit 2; }
-rm -rf /tmp/wt/ev_try; mkdir -p /tmp/wt/ev_try
-/verif/bin/upfcheck -prop all -repo $WT -verif /verif -out /tmp/wt/ev_try 2>&1 | grep -E "^  rule=" | sed 's/.*key=//' | sort | uniq | grep -E "${2:-.}"
+rm -rf $EV; mkdir -p $EV
+$BIN -prop ${PROPS:-all} -repo $WT -verif /verif -out $EV 2>&1 | grep -E "^  rule=" | sed 's/.*key=//' | sort | uniq | grep -E "${2:-.}"
 git -C $WT checkout -q -- . && git -C $WT clean -fdq
